@@ -109,8 +109,9 @@ class Scenario:
 
     def get(self, id_, n):
         c = self.cfg.get((id_, n))
-        if c is None:
-            c = self.cfg.get((id_, -1))
+        if c is not None:
+            return list(c) + [0] * (4 - len(c))   # explicit entry for this very start: as is
+        c = self.cfg.get((id_, -1))
         if c is None:
             c = self.default
         c = list(c) + [0] * (4 - len(c))
@@ -371,6 +372,8 @@ class Leaf(Node):
         self.h = None
         if oc == OC_DONE and not self.sd:
             oc = OC_VALUE
+        if self.vt == "none" and oc == OC_VALUE:
+            oc = OC_DONE
         pid = s.obs.leaf_pid.get((self.id, self.n), "?")
         if oc == OC_VALUE:
             if self.vt == "void":
@@ -921,6 +924,271 @@ CLASSES = {
     "when_all": WhenAll, "stop_when": StopWhen,
     "retry_when": RetryWhen, "repeat_effect_until": RepeatEffectUntil,
 }
+
+
+# ---------------------------------------------------------------------------
+# streams (C13): list semantics per adaptor, expressed reactively
+# ---------------------------------------------------------------------------
+class _Adapter:
+    """parent of a model leaf/sender that forwards its completion to a continuation"""
+
+    def __init__(self, k):
+        self.k = k
+
+    def child_done(self, slot, ch, pack):
+        self.k(ch, pack)
+
+
+def run_sender(sim, spec, env, k):
+    n = build(sim, spec, _Adapter(k), 0)
+    try:
+        n.connect(env)
+    except ConnectThrow as e:
+        return k("e", ("exc", "inj%d" % e.k))
+    n.start()
+
+
+class StreamModel:
+    def __init__(self, sim, spec):
+        self.sim, self.spec = sim, spec
+
+    def next(self, env, k):
+        raise NotImplementedError
+
+    def cleanup(self, env, k):
+        raise NotImplementedError
+
+
+class ProbeStream(StreamModel):
+    def next(self, env, k):
+        run_sender(self.sim, {"op": "leaf", "id": self.spec["sid"] * 10 + 1, "vt": "val", "sd": 1}, env, k)
+
+    def cleanup(self, env, k):
+        run_sender(self.sim, {"op": "leaf", "id": self.spec["sid"] * 10 + 2, "vt": "none", "sd": 1}, env, k)
+
+
+class TransformStream(StreamModel):
+    def __init__(self, sim, spec):
+        super().__init__(sim, spec)
+        self.src = build_stream(sim, spec["src"])
+
+    def next(self, env, k):
+        def on(ch, pack):
+            if ch != "v":
+                return k(ch, pack)
+            r, x = self.sim.call_fn(self.spec["fn"], desc_all(pack))
+            if r == "throw":
+                return k("e", x)
+            k("v", [("val", x)])
+        self.src.next(env, on)
+
+    def cleanup(self, env, k):
+        self.src.cleanup(env, k)
+
+
+class FilterStream(StreamModel):
+    def __init__(self, sim, spec):
+        super().__init__(sim, spec)
+        self.src = build_stream(sim, spec["src"])
+
+    def next(self, env, k):
+        def on(ch, pack):
+            if ch != "v":
+                return k(ch, pack)
+            fk = self.spec["fn"]
+            r, x = self.sim.call_fn(fk, desc_all(pack))
+            if r == "throw":
+                return k("e", x)
+            n = self.sim.fn_occ[fk] - 1
+            keep = (self.spec["mask"] >> (n % 16)) & 1
+            if keep:
+                k("v", pack)
+            else:
+                self.src.next(env, on)
+        self.src.next(env, on)
+
+    def cleanup(self, env, k):
+        self.src.cleanup(env, k)
+
+
+class ViaStream(StreamModel):
+    def __init__(self, sim, spec):
+        super().__init__(sim, spec)
+        self.src = build_stream(sim, spec["src"])
+
+    def _via(self, env, k):
+        # via(sender, s) == finally(sender, schedule(s))
+        def on(ch, pack):
+            def hop(ch2, pack2):
+                if ch2 == "v":
+                    k(ch, pack)
+                else:
+                    k(ch2, pack2)
+            run_sender(self.sim, sched_leaf(self.spec["sched"]), env, hop)
+        return on
+
+    def next(self, env, k):
+        self.src.next(env, self._via(env, k))
+
+    def cleanup(self, env, k):
+        self.src.cleanup(env, self._via(env, k))
+
+
+class TypeEraseStream(StreamModel):
+    def __init__(self, sim, spec):
+        super().__init__(sim, spec)
+        self.src = build_stream(sim, spec["src"])
+
+    @staticmethod
+    def erased(env):
+        # type_erased_stream forwards get_stop_token and get_scheduler (as any_scheduler) only
+        return env.with_(sched=-2, alloc=0, cookie=-1)
+
+    def next(self, env, k):
+        self.src.next(self.erased(env), k)
+
+    def cleanup(self, env, k):
+        self.src.cleanup(self.erased(env), k)
+
+
+class TakeUntilStream(StreamModel):
+    def __init__(self, sim, spec):
+        super().__init__(sim, spec)
+        self.src = build_stream(sim, spec["src"])
+        self.trig = build_stream(sim, spec["trig"])
+        self.stop = Tok()
+        self.trigger_started = False
+        self.cleanup_ready = False
+        self.cleanup_op = None
+
+    def next(self, env, k):
+        if not self.trigger_started:
+            self.trigger_started = True
+            # the trigger's next() outlives any single next(): its receiver only answers get_stop_token
+            self.trig.next(Env(self.stop, -1, 0, -1), lambda ch, pack: self.trigger_next_done())
+        h = [None]
+
+        def on(ch, pack):
+            env.tok.unregister(h[0])
+            if ch != "v":
+                self.stop.request()
+            k(ch, pack)
+        h[0] = env.tok.register(self.stop.request)
+        self.src.next(env.with_(tok=self.stop), on)
+
+    def trigger_next_done(self):
+        if not self.cleanup_ready:
+            self.stop.request()
+            if not self.cleanup_ready:
+                self.cleanup_ready = True
+                return
+        self.cleanup_op()
+
+    def cleanup(self, env, k):
+        st = {"done": 0, "src_err": None, "trig_err": None}
+
+        def finish():
+            st["done"] += 1
+            if st["done"] < 2:
+                return
+            if st["src_err"] is not None:
+                k("e", st["src_err"])
+            elif st["trig_err"] is not None:
+                k("e", st["trig_err"])
+            else:
+                k("d", None)
+
+        def src_done(ch, pack):
+            if ch == "e":
+                st["src_err"] = pack
+            finish()
+
+        def trig_done(ch, pack):
+            if ch == "e":
+                st["trig_err"] = pack
+            finish()
+
+        def start_trigger_cleanup():
+            self.trig.cleanup(env, trig_done)
+
+        self.src.cleanup(env, src_done)
+        if not self.cleanup_ready:
+            self.cleanup_op = start_trigger_cleanup
+            self.stop.request()
+            if not self.cleanup_ready:
+                self.cleanup_ready = True
+                return
+        start_trigger_cleanup()
+
+
+STREAMS = {"probe": ProbeStream, "transform": TransformStream, "filter": FilterStream, "via_stream": ViaStream,
+           "type_erase": TypeEraseStream, "take_until": TakeUntilStream}
+
+
+def build_stream(sim, spec):
+    return STREAMS[spec["s"]](sim, spec)
+
+
+class ReduceStream(Node):
+    def connect(self, env):
+        self.env = env
+        self.stream = build_stream(self.sim, self.spec["stream"])
+        self.state = ("val", self.spec["init"])
+
+    def start(self):
+        self.stream.next(self.env, self.on_next)
+
+    def on_next(self, ch, pack):
+        if ch == "v":
+            r, x = self.sim.call_fn(self.spec["fn"], desc_all([self.state] + list(pack)))
+            if r == "throw":
+                return self.stream.cleanup(self.cenv(), lambda c2, p2: self.after_error_cleanup(x, c2, p2))
+            self.state = ("val", x)
+            return self.stream.next(self.env, self.on_next)
+        if ch == "d":
+            return self.stream.cleanup(self.cenv(), self.after_done_cleanup)
+        self.stream.cleanup(self.cenv(), lambda c2, p2: self.after_error_cleanup(pack, c2, p2))
+
+    def cenv(self):
+        # reduce_stream's cleanup receivers answer get_stop_token with unstoppable_token
+        return self.env.with_(tok=UnstoppableTok())
+
+    def after_done_cleanup(self, ch, pack):
+        if ch == "e":
+            self.done("e", pack)
+        else:
+            self.done("v", [self.state])
+
+    def after_error_cleanup(self, err, ch, pack):
+        if ch == "e":
+            self.done("e", pack)
+        else:
+            self.done("e", err)
+
+
+class ForEach(ReduceStream):
+    def connect(self, env):
+        self.env = env
+        self.stream = build_stream(self.sim, self.spec["stream"])
+        self.state = None
+
+    def on_next(self, ch, pack):
+        if ch == "v":
+            r, x = self.sim.call_fn(self.spec["fn"], desc_all(list(pack)))
+            if r == "throw":
+                return self.stream.cleanup(self.cenv(), lambda c2, p2: self.after_error_cleanup(x, c2, p2))
+            return self.stream.next(self.env, self.on_next)
+        return super().on_next(ch, pack)
+
+    def after_done_cleanup(self, ch, pack):
+        if ch == "e":
+            self.done("e", pack)
+        else:
+            self.done("v", [])
+
+
+CLASSES["reduce_stream"] = ReduceStream
+CLASSES["for_each"] = ForEach
 
 
 def build(sim, spec, parent, slot):
